@@ -24,7 +24,9 @@ from fractions import Fraction as F
 import dataclasses
 import math
 
-from hypothesis import strategies as st
+import random
+
+from hypothesis import strategies as hst
 
 import ttconv.style_properties as s
 
@@ -100,7 +102,7 @@ CONTENT_PROPS = [p for p in gen_model.ALL_PROPS if p not in ("Extent", "Origin",
 DEFAULT_PROFILE = dict(
   p_time=0.35,            # probability of each of begin / dur / end on a timed element
   p_seq=0.3,              # probability of timeContainer="seq"
-  p_inverted=0.1,         # probability that an element with begin and end keeps end < begin
+  p_inverted=0.3,         # probability that an element with begin and end keeps end < begin
   p_arbitrary=0.15,       # probability of an off-lattice time value
   frames=True,            # ttp:frameRate (and multiplier) present and frame syntaxes used
   ticks=True,             # ttp:tickRate present and tick syntax used
@@ -123,7 +125,8 @@ DEFAULT_PROFILE = dict(
   fanout=3,
   avoid_r1=True,          # never build the trigger of reader finding R-1 (offset par container with a definite implicit end)
   avoid_r2=True,          # never build the trigger of reader finding R-2 (seq child after a sibling of indefinite duration)
-  exotic_values=False,    # legal values known to hit reader findings R-4 / R-5 (textShadow without blur and colour, extent auto ...)
+  force_r1=False,         # build the trigger of finding R-1 on purpose (part r1)
+  exotic=(),              # legal value shapes kept out of the main parts because they hit reader findings; exactly one is injected
   doc_params=True,
 )
 
@@ -204,16 +207,44 @@ def spellings(v, tt):
   if eff is not None:
     d = dec(v * eff, 4)
     if d is not None:
-      out.append(("f", d + "f"))
+      out.append(("f", d + "f", v * eff))
     whole = math.floor(v)
     ff = (v - whole) * eff
     if ff.denominator == 1 and ff < tt["fps"]:
-      out.append(("clockf", "%02d:%02d:%02d:%02d" % (whole // 3600, (whole // 60) % 60, whole % 60, ff.numerator)))
+      out.append(("clockf", "%02d:%02d:%02d:%02d" % (whole // 3600, (whole // 60) % 60, whole % 60, ff.numerator), (whole, ff.numerator)))
   if tt.get("tick") is not None:
     d = dec(v * tt["tick"], 3)
     if d is not None:
-      out.append(("t", d + "t"))
+      out.append(("t", d + "t", v * tt["tick"]))
   return out
+
+
+def reinterpret(desc):
+  """recomputes the meaning of every frame- and tick-based time expression from the document's current parameters (TTML2 defaults:
+  ttp:frameRate 30, ttp:frameRateMultiplier 1 1; ttp:tickRate 1 when no frame rate is given) - used when a parameter is taken away"""
+  tt = desc["tt"]
+  eff = F(tt["fps"] if tt["fps"] is not None else 30)
+  if tt["frm"] is not None:
+    eff = eff * F(tt["frm"][0], tt["frm"][1])
+  tick = tt["tick"] if tt["tick"] is not None else 1
+
+  def fix(t):
+    if t is None:
+      return
+    if t["syn"] == "f":
+      t["v"] = F(t["q"]) / eff
+    elif t["syn"] == "t":
+      t["v"] = F(t["q"]) / tick
+    elif t["syn"] == "clockf":
+      t["v"] = F(t["q"][0]) + F(t["q"][1]) / eff
+
+  for n in walk_desc(desc):
+    for k in ("begin", "dur", "end"):
+      fix(n[k])
+    fix(n.get("spare"))
+    for stp in n["sets"]:
+      for k in ("begin", "dur", "end"):
+        fix(stp[k])
 
 
 def num_forms(q, signed=True):
@@ -260,11 +291,15 @@ def w_len(l, pick):
   return w_num(l.value, pick, signed=True) + l.units.value
 
 
-def w_color(c, pick):
+def w_color(c, pick, functional=True):
   r, g, b, a = c.components
-  forms = ["#%02x%02x%02x%02x" % (r, g, b, a), "#%02X%02X%02X%02X" % (r, g, b, a), "rgba(%d,%d,%d,%d)" % (r, g, b, a)]
+  forms = ["#%02x%02x%02x%02x" % (r, g, b, a), "#%02X%02X%02X%02X" % (r, g, b, a)]
+  if functional:
+    forms.append("rgba(%d,%d,%d,%d)" % (r, g, b, a))
   if a == 255:
-    forms += ["#%02x%02x%02x" % (r, g, b), "#%02X%02X%02X" % (r, g, b), "rgb(%d,%d,%d)" % (r, g, b)]
+    forms += ["#%02x%02x%02x" % (r, g, b), "#%02X%02X%02X" % (r, g, b)]
+    if functional:
+      forms.append("rgb(%d,%d,%d)" % (r, g, b))
   forms += NAMED.get((r, g, b, a), []) * 3
   return pick(forms)
 
@@ -295,15 +330,13 @@ def w_position(v, pick):
     hc.append(w_len(ho, pick))
     if is_pct(ho, 50):
       hc.append("center")
-  if F(ho.value) == 0:
+  if is_pct(ho, 0):
     hc.append(he)
-  if he == "right" and is_pct(ho, 100):
-    pass
   if ve == "top":
     vc.append(w_len(vo, pick))
     if is_pct(vo, 50):
       vc.append("center")
-  if F(vo.value) == 0:
+  if is_pct(vo, 0):
     vc.append(ve)
   for h in hc:
     for vv in vc:
@@ -315,11 +348,11 @@ def w_position(v, pick):
   if he == "left" and is_pct(ho, 50):
     forms += [x for x in vc if x in ("top", "bottom")]
   # three components
-  if F(vo.value) == 0:
+  if is_pct(vo, 0):
     forms.append("%s %s %s" % (he, w_len(ho, pick), ve))
   if ve == "top" and is_pct(vo, 50):
     forms.append("%s %s center" % (he, w_len(ho, pick)))
-  if F(ho.value) == 0:
+  if is_pct(ho, 0):
     forms.append("%s %s %s" % (he, ve, w_len(vo, pick)))
   if he == "left" and is_pct(ho, 50):
     forms.append("center %s %s" % (ve, w_len(vo, pick)))
@@ -418,7 +451,8 @@ def write_value(name, v, pick, aliases=True):
       if sh.blur_radius is not None:
         t += " " + w_len(sh.blur_radius, pick)
       if sh.color is not None:
-        t += " " + w_color(sh.color, pick)
+        # rgb() / rgba() inside a shadow list is kept for the dedicated part (reader finding R-4c: the list is split at every comma)
+        t += " " + w_color(sh.color, pick, functional=False)
       items.append(t)
     return ",".join(items)
   raise KeyError(name)
@@ -443,10 +477,74 @@ POS_OFFSETS = [s.LengthType(0, U.pct), s.LengthType(50, U.pct), s.LengthType(10,
                s.LengthType(12.5, U.pct), s.LengthType(0, U.c)]
 
 
+class st:   # pylint: disable=invalid-name
+  """Structural choices are made with a random.Random seeded by ONE Hypothesis-drawn integer (so every random choice still comes from
+  the strategy and a case is reproducible from its data), not with one Hypothesis draw each: a description needs ~600 choices, which
+  made generation three times as expensive as checking, and inside large composites Hypothesis' mutation phase skews draws heavily
+  towards small values (measured: integers(0, 999) < 350 with probability 0.59), which made documents dense and mostly silent.
+  This class mimics the few strategy constructors used below; _G.d() evaluates them.  Style *values* are real Hypothesis draws."""
+
+  @staticmethod
+  def sampled_from(seq):
+    return ("pick", list(seq))
+
+  @staticmethod
+  def integers(lo, hi):
+    return ("int", lo, hi)
+
+  @staticmethod
+  def booleans():
+    return ("bool",)
+
+  @staticmethod
+  def lists(elem, min_size=0, max_size=0, unique=False):
+    return ("list", elem, min_size, max_size, unique)
+
+  @staticmethod
+  def permutations(seq):
+    return ("perm", list(seq))
+
+  @staticmethod
+  def one_of(*alts):
+    return ("one_of", alts)
+
+  @staticmethod
+  def tuples(*parts):
+    return ("tuples", parts)
+
+
+def _ev(rng, spec):
+  k = spec[0]
+  if k == "pick":
+    return spec[1][rng.randrange(len(spec[1]))]
+  if k == "int":
+    return rng.randint(spec[1], spec[2])
+  if k == "bool":
+    return rng.random() < 0.5
+  if k == "list":
+    _, elem, lo, hi, unique = spec
+    n = rng.randint(lo, hi)
+    if unique:
+      assert elem[0] == "pick"
+      pool = list(dict.fromkeys(elem[1]))
+      return rng.sample(pool, min(n, len(pool)))
+    return [_ev(rng, elem) for _ in range(n)]
+  if k == "perm":
+    l = list(spec[1])
+    rng.shuffle(l)
+    return l
+  if k == "one_of":
+    return _ev(rng, spec[1][rng.randrange(len(spec[1]))])
+  if k == "tuples":
+    return tuple(_ev(rng, x) for x in spec[1])
+  raise KeyError(k)
+
+
 class _G:
   def __init__(self, draw, prof):
     self.draw = draw
     self.prof = prof
+    self.rng = None
     self.n = 0
     self.nodes = 0
     self.words = 0
@@ -457,10 +555,12 @@ class _G:
     self.style_ids = []
 
   def d(self, strat):
+    if isinstance(strat, tuple):
+      return _ev(self.rng, strat)
     return self.draw(strat)
 
   def chance(self, p):
-    return self.d(st.integers(0, 999)) < int(1000 * p)
+    return self.rng.random() < p
 
   def nid(self, kind):
     self.n += 1
@@ -486,7 +586,7 @@ class _G:
       written = v
       # IMSC 1.1 (fontFamily): the generic family name "default" is mapped to monospaceSerif
       v = tuple(s.GenericFontFamilyType.monospaceSerif if f is s.GenericFontFamilyType.default else f for f in v)
-    elif name == "TextShadow" and v is not s.SpecialValues.none and not prof["exotic_values"]:
+    elif name == "TextShadow" and v is not s.SpecialValues.none:
       # shadows with neither blur radius nor colour are kept for the dedicated part (reader finding R-4)
       v = s.TextShadowType(tuple(sh if (sh.blur_radius is not None or sh.color is not None)
                                  else dataclasses.replace(sh, color=s.NamedColors.red.value) for sh in v.shadows))
@@ -535,8 +635,8 @@ class _G:
     # frame and tick syntaxes are preferred when available so that they occur often
     weighted = [f for f in fams for _ in range(3 if f in ("f", "t", "clockf") else 1)]
     fam = self.d(st.sampled_from(weighted))
-    texts = [c[1] for c in cands if c[0] == fam]
-    return {"v": v, "x": self.d(st.sampled_from(texts)), "syn": fam}
+    c = self.d(st.sampled_from([c for c in cands if c[0] == fam]))
+    return {"v": v, "x": c[1], "syn": fam, "q": c[2] if len(c) > 2 else None}
 
   def opt_time(self, p=None, positive=False):
     if not self.chance(self.prof["p_time"] if p is None else p):
@@ -568,6 +668,8 @@ class _G:
         pieces.append(self.d(st.sampled_from([" ", "  ", "\t", "\n", " \n "])))
       else:
         pieces.append(self.d(st.sampled_from(["&", "<", ">", '"', "'", "]]>", "é", "中"])))
+    if not any(x.startswith("w") for x in pieces) and not (pieces and all(x.strip(" \t\n") == "" for x in pieces)):
+      pieces.append(self.word())        # the comparators identify text nodes by their (unique) non-white-space content
     t = "".join(pieces)
     return {"kind": "text", "text": t if t else self.word()}
 
@@ -610,7 +712,7 @@ class _G:
       return n
     self.common(n)
     if not plain:
-      if self.chance(prof["p_seq"]):
+      if self.chance(prof["p_seq"] * (1 if kind in ("body", "div") else 0.5)):   # text in a seq p / span is never shown
         n["tc"] = "seq"
       elif self.chance(0.15):
         n["tc"] = "par"
@@ -702,7 +804,7 @@ class _G:
     n = self.blank("region")
     n["id"] = "r%d" % i
     self.common(n)
-    self.timing(n, prof["p_time"] * 0.6)
+    self.timing(n, prof["p_time"] * 0.4)
     used = set()
     n["attrs"] = self.attrs((prof["attrs"][0], max(3, prof["attrs"][1])), REGION_PROPS + ["Color", "FontSize", "TextAlign", "Direction"])
     used.update(a["p"] for a in n["attrs"])
@@ -784,10 +886,11 @@ def _set_iv(stp):
   return (b, min(cands) if cands else None)
 
 
-@st.composite
+@hst.composite
 def descs(draw, prof=None):
   prof = prof or DEFAULT_PROFILE
   g = _G(draw, prof)
+  g.rng = random.Random(draw(hst.integers(0, 2 ** 62)))
   d = g.d
   ns = dict(tt=d(st.sampled_from(["", "", "tt", "ttml"])), tts=d(st.sampled_from(["tts", "tts", "s", "style"])),
             ttp=d(st.sampled_from(["ttp", "p"])), ittp=d(st.sampled_from(["ittp", "ip"])), itts=d(st.sampled_from(["itts", "is"])),
@@ -834,7 +937,8 @@ def descs(draw, prof=None):
   initials = []
   used = set()
   for _ in range(d(st.integers(*prof["initials"]))):
-    at = g.attrs((1, 2), gen_model.ALL_PROPS, exclude=used)
+    # an initial tts:display="none" silences the whole document: legal, kept rare
+    at = g.attrs((1, 2), gen_model.ALL_PROPS, exclude=used | (set() if g.chance(0.1) else {"Display"}))
     used.update(a["p"] for a in at)
     if at:
       initials.append(at)
@@ -844,7 +948,67 @@ def descs(draw, prof=None):
   body = g.elem("body", 0, False) if g.chance(0.97) else None
   if body is not None:
     fix_timing(body, "par", F(0), prof)
-  return dict(ns=ns, tt=tt, initials=initials, styles=styles, regions=regions, body=body)
+    if prof["force_r1"]:
+      hosts = [n for n in walk_desc(dict(regions=[], body=body)) if n["kind"] == "div" and any(k["kind"] != "text" for k in n["kids"])]
+      if hosts:
+        host = g.d(st.sampled_from(hosts))
+        host.update(begin=g.time(positive=True), dur=None, end=None, tc=None)
+        for k in host["kids"]:
+          if k["dur"] is None and k["end"] is None:
+            k["end"] = k["spare"]
+  desc = dict(ns=ns, tt=tt, initials=initials, styles=styles, regions=regions, body=body)
+  if prof["exotic"]:
+    inject_exotic(g, desc, d(st.sampled_from(list(prof["exotic"]))))
+  return desc
+
+
+EXOTIC = ("shadow-two-lengths", "shadow-rgb-function", "shadow-comma-space", "extent-auto", "fontFamily-one-letter")
+
+
+def inject_exotic(g, desc, feature):
+  """adds one attribute whose (legal) written form belongs to `feature`; desc["exotic"] names it"""
+  d = g.d
+  pick = g.picker()
+  red, blue = s.NamedColors.red.value, s.ColorType((0, 0, 255, 128))
+  l1, l2, l3 = s.LengthType(10, U.pct), s.LengthType(0.5, U.em), s.LengthType(1, U.c)
+  Sh = s.TextShadowType.Shadow
+  if feature == "extent-auto":
+    # TTML2 tts:extent: auto on a region = the extent of the root container
+    name, v, x = "Extent", s.ExtentType(height=s.LengthType(100, U.pct), width=s.LengthType(100, U.pct)), "auto"
+    hosts = list(desc["regions"])
+  else:
+    hosts = [n for n in walk_desc(desc) if n["kind"] in ("p", "span") and n["ruby"] is None] or \
+      [n for n in walk_desc(desc) if n["kind"] in ("div", "body")]
+    if feature == "shadow-two-lengths":
+      name, v = "TextShadow", s.TextShadowType((Sh(l1, l2, None, None),))
+      x = "%s %s" % (w_len(l1, pick), w_len(l2, pick))
+      if d(st.booleans()):
+        v = s.TextShadowType((Sh(l1, l2, None, None), Sh(l3, l1, l2, red)))
+        x += ",%s %s %s red" % (w_len(l3, pick), w_len(l1, pick), w_len(l2, pick))
+    elif feature == "shadow-rgb-function":
+      name, v = "TextShadow", s.TextShadowType((Sh(l1, l2, d(st.sampled_from([None, l3])), blue),))
+      sh = v.shadows[0]
+      x = "%s %s%s %s" % (w_len(l1, pick), w_len(l2, pick), "" if sh.blur_radius is None else " " + w_len(l3, pick),
+                          d(st.sampled_from(["rgba(0,0,255,128)"])))
+      if d(st.booleans()):
+        name, v, x = "TextShadow", s.TextShadowType((Sh(l1, l2, l3, red),)), "%s %s %s rgb(255,0,0)" % (w_len(l1, pick), w_len(l2, pick), w_len(l3, pick))
+    elif feature == "shadow-comma-space":
+      # TTML2 tts:textShadow: <shadow> (<lwsp>? "," <lwsp>? <shadow>)*
+      name, v = "TextShadow", s.TextShadowType((Sh(l1, l2, l3, red), Sh(l3, l1, None, red)))
+      x = "%s %s %s red%s%s %s #ff0000" % (w_len(l1, pick), w_len(l2, pick), w_len(l3, pick), d(st.sampled_from([", ", " ,", " , "])),
+                                          w_len(l3, pick), w_len(l1, pick))
+    elif feature == "fontFamily-one-letter":
+      name, v, x = "FontFamily", ("A", s.GenericFontFamilyType.serif), d(st.sampled_from(["A, serif", "A,serif"]))
+      if d(st.booleans()):
+        v, x = ("X",), "X"
+    else:
+      raise KeyError(feature)
+  if not hosts:
+    desc["exotic"] = None
+    return
+  host = d(st.sampled_from(hosts))
+  host["attrs"] = [a for a in host["attrs"] if a["p"] != name] + [{"p": name, "v": v, "x": x}]
+  desc["exotic"] = feature
 
 
 # ---------------------------------------------------------------------------------------------- XML
@@ -924,7 +1088,7 @@ class _X:
     head = "<%s%s" % (self.tag(n["kind"]), self.attr_list(n["id"], pairs))
     inner = ""
     for i, stp in enumerate(n["sets"]):
-      sp = self.time_pairs(stp) + self.style_pairs([stp["attr"]])
+      sp = self.time_pairs(stp) + self.style_pairs([stp["attr"]] if stp["attr"] is not None else [])
       inner += "<%s%s/>" % (self.tag("set"), self.attr_list("%s/set%d" % (n["id"], i), sp))
     for i, at in enumerate(n["nested"]):
       inner += "<%s%s/>" % (self.tag("style"), self.attr_list("%s/nested%d" % (n["id"], i), self.style_pairs(at)))
@@ -1011,6 +1175,7 @@ class Timing:
     self.text_iv = {}      # (parent id, kid index) -> same for text nodes
     self.r1_sites = []     # par containers at a non-zero offset with a definite, positive implicit duration and no dur / end
     self.r2_sites = []     # seq children whose previous sibling has an indefinite end
+    self.ambiguous = []    # elements with end < begin on which a sibling's begin or the parent's implicit duration depends
     self.feat = set()
     if desc["body"] is not None:
       self.resolve(desc["body"], "par", F(0))
@@ -1072,6 +1237,10 @@ class Timing:
       e = min(cands)
       if len(cands) == 2:
         self.feat.add("dur+end")
+      if e < b and parent is not None and ((parent["tc"] or "par") == "seq" or (parent["dur"] is None and parent["end"] is None)):
+        # SMIL: an interval that ends before it begins is not a valid interval; whether its end still counts for the parent's
+        # implicit duration / the next seq sibling is not asserted
+        self.ambiguous.append(n["id"])
     else:
       e = None if impl is None else b + impl
       if impl is not None and n["kind"] != "region" and n["kids"]:
@@ -1149,7 +1318,7 @@ def to_docspec(desc, info=None):
       if r in table:
         sub, dp = table[r]
         for k in sub:
-          if k in out:
+          if k in out and out[k] != sub[k]:
             feat.add("later-ref-overrides")
         out.update(sub)
         maxdepth = max(maxdepth, dp)
@@ -1176,6 +1345,8 @@ def to_docspec(desc, info=None):
     out = []
     for stp in n["sets"]:
       b, e = _set_iv(stp)
+      if stp["attr"] is None:
+        continue           # a set without style attribute animates nothing (it still is a timed child of its parent)
       out.append((stp["attr"]["p"], b if b != 0 else None, e, stp["attr"]["v"]))
       feat.add("set")
     return out
@@ -1247,6 +1418,7 @@ def to_docspec(desc, info=None):
     info["feat"] = feat
     info["r1_sites"] = timing.r1_sites
     info["r2_sites"] = timing.r2_sites
+    info["ambiguous"] = timing.ambiguous
   return spec
 
 
@@ -1276,9 +1448,9 @@ def selftest():
         raise AssertionError("named colour %s" % nm)
   assert dec(F(3, 2)) == "1.5" and dec(F(1, 3)) is None and dec(F(0)) == "0" and dec(F(1, 8)) == "0.125" and dec(F(10)) == "10"
   tt = dict(fps=30, frm=(1000, 1001), tick=90000)
-  sp = dict(spellings(F(1001, 1000), tt))
+  sp = {c[0]: c[1] for c in spellings(F(1001, 1000), tt)}
   assert sp.get("f") == "30f" and sp.get("t") == "90090t" and sp.get("ms") == "1001ms", sp
-  assert ("clockf", "00:00:01:15") in spellings(F(3, 2), dict(fps=30, frm=None, tick=None))
+  assert ("clockf", "00:00:01:15", (1, 15)) in spellings(F(3, 2), dict(fps=30, frm=None, tick=None))
 
   # timing examples worked by hand from TTML2 12.2 / SMIL par-seq semantics
   def e(kind, eid, kids=(), **kw):
